@@ -24,12 +24,17 @@
 (*              consumer asks once more (the repair); FALSE -> it stops    *)
 (*              with the last resource (pinned: the zip over descriptors   *)
 (*              and iterators ended on the descriptor side)                *)
+(*   limit_rows Limit > 0: the consumer delivers only the first Limit rows *)
+(*              of a selected resource; DrainLimited = TRUE -> the rest is *)
+(*              pulled and thrown away afterwards (the repair), FALSE ->   *)
+(*              the resource is left half read (pinned)                    *)
 (***************************************************************************)
 EXTENDS Naturals, Sequences, FiniteSets, TLC
 
 CONSTANTS N, R,            \* resources, rows per resource
           Selected,        \* the set of resource indices the consumer keeps
-          FinalPullDone, DrainSkipped, FailsAtEnd
+          FinalPullDone, DrainSkipped, FailsAtEnd,
+          Limit, DrainLimited
 
 VARIABLES cur,        \* index of the resource the consumer is at (0 before the first, N + 1 after the final pull)
           pulled,     \* pulled[i]: rows of resource i pulled through the producer so far
@@ -45,16 +50,21 @@ Init == cur = 0 /\ pulled = [i \in 1..N |-> 0] /\ closed = [i \in 1..N |-> FALSE
 \* a generator that was left suspended in the middle is simply abandoned
 NextRes == /\ ~done /\ cur < N
            /\ cur' = cur + 1 /\ UNCHANGED <<pulled, closed, committed, failed, done>>
-Row == /\ ~done /\ cur \in 1..N /\ cur \in Selected /\ pulled[cur] < R
+Wanted == IF Limit > 0 /\ Limit < R THEN Limit ELSE R
+Row == /\ ~done /\ cur \in 1..N /\ cur \in Selected /\ pulled[cur] < Wanted
        /\ pulled' = [pulled EXCEPT ![cur] = @ + 1]
        /\ UNCHANGED <<cur, closed, committed, failed, done>>
 \* the row iterator of the current resource is exhausted: the observer closes that resource's file
 EndRes == /\ ~done /\ cur \in 1..N /\ pulled[cur] = R /\ ~closed[cur]
           /\ closed' = [closed EXCEPT ![cur] = TRUE] /\ UNCHANGED <<cur, pulled, committed, failed, done>>
+DrainRest == /\ ~done /\ cur \in 1..N /\ cur \in Selected /\ DrainLimited /\ pulled[cur] = Wanted /\ Wanted < R
+             /\ pulled' = [pulled EXCEPT ![cur] = R]
+             /\ UNCHANGED <<cur, closed, committed, failed, done>>
 Skip == /\ ~done /\ cur \in 1..N /\ cur \notin Selected /\ DrainSkipped /\ pulled[cur] < R
         /\ pulled' = [pulled EXCEPT ![cur] = R]                 \* drained in one go
         /\ UNCHANGED <<cur, closed, committed, failed, done>>
-ReadyToLeave == cur = 0 \/ (cur \in 1..N /\ (IF cur \in Selected \/ DrainSkipped THEN closed[cur] ELSE TRUE))
+ReadyToLeave == cur = 0 \/ (cur \in 1..N /\ (IF cur \in Selected THEN (IF Wanted < R /\ ~DrainLimited THEN pulled[cur] = Wanted ELSE closed[cur])
+                                               ELSE (IF DrainSkipped THEN closed[cur] ELSE TRUE)))
 FinalPull == /\ ~done /\ cur = N /\ ReadyToLeave /\ FinalPullDone
              /\ cur' = N + 1
              /\ IF FailsAtEnd THEN failed' = TRUE /\ UNCHANGED committed ELSE committed' = TRUE /\ UNCHANGED failed
@@ -62,7 +72,7 @@ FinalPull == /\ ~done /\ cur = N /\ ReadyToLeave /\ FinalPullDone
 StopShort == /\ ~done /\ cur = N /\ ReadyToLeave /\ ~FinalPullDone
              /\ done' = TRUE /\ UNCHANGED <<cur, pulled, closed, committed, failed>>
 Advance == NextRes /\ ReadyToLeave
-Next == Advance \/ Row \/ EndRes \/ Skip \/ FinalPull \/ StopShort
+Next == Advance \/ Row \/ EndRes \/ Skip \/ DrainRest \/ FinalPull \/ StopShort
 Spec == Init /\ [][Next]_vars /\ WF_vars(Next)
 
 \* C05: once the consumer is done and nothing failed, the observer in the producer has committed ...
